@@ -395,11 +395,10 @@ theorem sdDelattr_sim {s : SD K V} {g : SDSpec K V} (h : SDRep s g) (attr : Opti
           · simp only
             rw [dget_dset]; simp [h.dflt]
 
-/-- key tuples of assignments are non-empty; an assignment refused after the deletion loop is
-    outside the refinement (as the code is today it fails half-way, see `sdSetRefused_sim`) -/
+/-- key tuples of assignments are non-empty; every operation that raises is inside (since the
+    repair 735182a none of them fails half-way) -/
 def SOp.valid : SOp K V → Prop
   | .set keys _ => keys ≠ []
-  | .setRefused _ => False
   | _ => True
 
 /-- nothing the coherence invariant needs is excluded: only the empty key tuple -/
@@ -407,16 +406,16 @@ def SOp.nonEmpty : SOp K V → Prop
   | .set keys _ => keys ≠ []
   | _ => True
 
-/-- a refused StrategyDict assignment, as the code is today: the exception is raised and the state
+/-- a refused StrategyDict assignment, as the code was BEFORE the repair 735182a: the exception is raised and the state
     still represents a well-formed abstract state — the one in which the names `deleted` were
     deleted one by one (their bindings gone, the other attributes untouched, the default gone when
     it lost all its names) -/
 theorem sdSetRefused_sim {s : SD K V} {g : SDSpec K V} (h : SDRep s g) (deleted : List K) :
-    (∃ g1, SDRep (sdStep s (.setRefused deleted)).1 g1 ∧
+    (∃ g1, SDRep (sdSetRefused s deleted).1 g1 ∧
       g1.log = g.log.filter (fun e => e.1 ∉ deleted) ∧
       (∀ k, k ∉ deleted → dget g1.attr k = dget g.attr k) ∧
       g1.default = defaultAfterLoss g.log g.default deleted) ∧
-    (sdStep s (.setRefused deleted)).2 = .rejected :=
+    (sdSetRefused s deleted).2 = .rejected :=
   ⟨sdDelLoop_sim deleted h, rfl⟩
 
 theorem sdStep_sim {s : SD K V} {g : SDSpec K V} (h : SDRep s g) (op : SOp K V) (hv : SOp.valid op) :
@@ -456,8 +455,16 @@ theorem sdStep_sim {s : SD K V} {g : SDSpec K V} (h : SDRep s g) (op : SOp K V) 
   | default => exact ⟨h, by simp only [sdStep, sdSpecStep, sdDefault, h.dflt]⟩
   | call => exact ⟨h, by simp only [sdStep, sdSpecStep, sdDefault, h.dflt]⟩
   | len => exact ⟨h, by simp only [sdStep, sdSpecStep, h.rep.len_eq]⟩
-  | setRefused deleted => exact absurd hv (by simp [SOp.valid])
+  | setRefused deleted => exact ⟨h, rfl⟩
   | rejected => exact ⟨h, rfl⟩
+  | const r => exact ⟨h, rfl⟩
+  | getT t => exact ⟨h, by simp only [sdStep, sdSpecStep, h.rep.getTuple_eq]⟩
+  | contains t =>
+    refine ⟨h, ?_⟩
+    have := h.rep.getTuple_eq t
+    simp only [getTuple] at this
+    simp only [sdStep, sdSpecStep, dhas, this]
+  | dictGet t => exact ⟨h, by simp only [sdStep, sdSpecStep, h.rep.getTuple_eq]⟩
 
 /-- the deletion loop over names that hold no strategy does nothing -/
 theorem sdDelLoop_unbound (p : List K) (s : SD K V) (h : ∀ k ∈ p, key2keys s.mkd k = none) :
@@ -469,18 +476,13 @@ theorem sdDelLoop_unbound (p : List K) (s : SD K V) (h : ∀ k ∈ p, key2keys s
     simp only [sdDelLoop, sdDelitem, hk]
     exact ih (fun x hx => h x (List.mem_cons_of_mem _ hx))
 
-/-- the three maps stay coherent under EVERY operation, the half-way failing one included -/
+/-- the three maps stay coherent under EVERY operation -/
 theorem sdStep_inv_any {s : SD K V} {g : SDSpec K V} (h : SDRep s g) (op : SOp K V)
     (hv : SOp.nonEmpty op) : ∃ g', SDRep (sdStep s op).1 g' := by
-  by_cases hr : ∃ d, op = .setRefused d
-  · obtain ⟨d, rfl⟩ := hr
-    obtain ⟨⟨g1, h1, _⟩, _⟩ := sdSetRefused_sim h d
-    exact ⟨g1, h1⟩
-  · refine ⟨_, (sdStep_sim h op ?_).1⟩
-    cases op with
-    | set keys v => exact hv
-    | setRefused d => exact absurd ⟨d, rfl⟩ hr
-    | _ => trivial
+  refine ⟨_, (sdStep_sim h op ?_).1⟩
+  cases op with
+  | set keys v => exact hv
+  | _ => trivial
 
 theorem sdRun_sim (ops : List (SOp K V)) : ∀ {s : SD K V} {g : SDSpec K V}, SDRep s g →
     (∀ op ∈ ops, SOp.valid op) →
@@ -557,6 +559,10 @@ theorem sdSpecStep_attrCoherent {g : SDSpec K V} (h : AttrCoherent g) (op : SOp 
   | len => exact h
   | setRefused _ => exact h
   | rejected => exact h
+  | const _ => exact h
+  | getT _ => exact h
+  | contains _ => exact h
+  | dictGet _ => exact h
 
 theorem sdSpecRun_attrCoherent (ops : List (SOp K V)) : ∀ {g : SDSpec K V}, AttrCoherent g →
     (∀ op ∈ ops, SOp.noSetattr op) → AttrCoherent (sdSpecRun g ops).1 := by
@@ -651,6 +657,10 @@ theorem sdSpecStep_keeps {g : SDSpec K V} {k0 : K} {v0 : V} (op : SOp K V)
   | len => exact ⟨hlog, hdef⟩
   | setRefused _ => exact ⟨hlog, hdef⟩
   | rejected => exact ⟨hlog, hdef⟩
+  | const _ => exact ⟨hlog, hdef⟩
+  | getT _ => exact ⟨hlog, hdef⟩
+  | contains _ => exact ⟨hlog, hdef⟩
+  | dictGet _ => exact ⟨hlog, hdef⟩
 
 theorem sdSpecRun_keeps (ops : List (SOp K V)) {k0 : K} {v0 : V} : ∀ {g : SDSpec K V},
     (∀ op ∈ ops, SOp.keepsName k0 op) → dget g.log k0 = some v0 → g.default = some v0 →
